@@ -167,6 +167,25 @@ Theorem C06_getfield_huge : forall rx am, engine_ok rx am ->
 Proof. exact getfield_huge. Qed.
 Print Assumptions C06_getfield_huge.
 
+(* ---------------- sub / gsub / ++ / op= with $i or $0 as target ---------------- *)
+
+(* f = the text the operation computes from the old one.  A substitution that was made
+   (Some t) IS the assignment $(x) = t, whether or not t differs from the old text: so all of
+   C06_setfield_spec / _negative / _too_large / C06_assign_record_resplits apply ($0 rebuilt
+   with OFS, NF extended, $0 re-split with the FS in force) ... *)
+Theorem C06_modfield_some_is_assignment : forall rx am s x f old s1 fl t,
+  get_field rx am s (float_to_int x) = Ok (s1, old, fl) -> f old = Ok (Some t) ->
+  exec_op rx am s (ModField rx (IConst x) f) = exec_op rx am s (SetField rx (IConst x) t).
+Proof. exact modfield_some_is_assignment. Qed.
+Print Assumptions C06_modfield_some_is_assignment.
+
+(* ... and no substitution (None) is just the read of the target *)
+Theorem C06_modfield_none_is_read : forall rx am s x f old s1 fl,
+  get_field rx am s (float_to_int x) = Ok (s1, old, fl) -> f old = Ok None ->
+  exec_op rx am s (ModField rx (IConst x) f) = Ok (s1, ONone) /\ view rx am s1 = view rx am s.
+Proof. exact modfield_none_is_read. Qed.
+Print Assumptions C06_modfield_none_is_read.
+
 (* ---------------- NF = v ---------------- *)
 
 (* n = int(v), 0 <= n <= maxFieldIndex: the fields are truncated to n or extended with empty
@@ -338,6 +357,20 @@ Example C06_ex_flags_reset :
         ReadRecord re [49; 48; 32; 49; 48]; TypeOf re (IConst (FFin 1 0))] xinit)
   = [ONone; ONone; OTyp (Some true); ONone; OTyp (Some false)].
 Proof. vm_compute. reflexivity. Qed.
+
+(* OFS="-"; sub(/b/, "b", $2) on "a  b   c": $0 becomes "a-b-c"; sub(/^/, "", $5): NF = 5 *)
+Example C06_ex_sub_same_text :
+  (do s <- run re Regex.all_matches
+       [SetOFS re [45]; ReadRecord re [97; 32; 32; 98; 32; 32; 32; 99];
+        ModField re (IConst (FFin 2 0)) (fun old => Ok (Some old))] xinit;
+   view re Regex.all_matches s)
+  = Ok ([97; 45; 98; 45; 99], [[97]; [98]; [99]], count_value 3)
+  /\
+  (do s <- run re Regex.all_matches
+       [ReadRecord re [97; 32; 98; 32; 99]; ModField re (IConst (FFin 5 0)) (fun old => Ok (Some old))] xinit;
+   view re Regex.all_matches s)
+  = Ok ([97; 32; 98; 32; 99; 32; 32], [[97]; [98]; [99]; []; []], count_value 5).
+Proof. split; vm_compute; reflexivity. Qed.
 
 (* the witnesses of the findings, on the executable model *)
 Example C06_ex_nf_2_7 :                      (* $0 = "a b c"; NF = 2.7  ->  NF reads 2.7, 2 fields *)
